@@ -19,7 +19,7 @@ EXTENDS Integers, Sequences, TLC, Json
 CallerSkipFrameCount == 2
 ContextSkip == 2          \* contextCallerSkipFrameCount (go >= 1.12)
 
-Mechs == {"ev", "evk", "ctx", "ctxcount", "evskipframe", "evskipchain", "global"}
+Mechs == {"ev", "evk", "ctx", "ctxcount", "ctxpinned", "evskipframe", "evskipchain", "global"}
 Entries == {"Trace", "Debug", "Info", "Warn", "Error", "WithLevel", "Err", "Log", "Panic",
             "Print", "Printf", "Println", "Write", "log.Info", "log.Error", "log.Log", "log.WithLevel", "log.Err", "log.Print", "log.Printf",
             \* argument shapes of the printf-style entry points: no arguments at all / a constant format (a fast path is a frame)
@@ -42,6 +42,9 @@ Skip(mech, entry, k) ==
     [] mech = "evk" -> k + CallerSkipFrameCount                                       \* Event.Caller(k)
     [] mech = "ctx" -> CallerSkipFrameCount + ContextSkip + selfskip                 \* Context.Caller()
     [] mech = "ctxcount" -> (2 + k) + ContextSkip + selfskip                         \* CallerWithSkipFrameCount(2+k)
+    \* CallerWithSkipFrameCount(2+k) PINS its argument: built while the global CallerSkipFrameCount happens to equal 2+k,
+    \* used after the global went back to 2 - the argument still counts, not the global at logging time
+    [] mech = "ctxpinned" -> (2 + k) + ContextSkip + selfskip
     [] mech = "evskipframe" -> CallerSkipFrameCount + ContextSkip + selfskip + k     \* Context.Caller() + Event.CallerSkipFrame(k)
     \* k layered helpers, each adding CallerSkipFrame(1) to the event it passes on: the contributions add up
     [] mech = "evskipchain" -> CallerSkipFrameCount + ContextSkip + selfskip + k
